@@ -171,7 +171,24 @@ void* trampoline(void* p) {
   return t->ret;
 }
 
-int condWaitCommon(pthread_cond_t* c, pthread_mutex_t* m, bool timed) {
+// Logical clock: when the scheduler lets a timed wait time out, time has passed as far as the program can tell -
+// clock_gettime() is interposed below and reports the real clock plus this offset, so code that re-reads the clock
+// after the wait (std::condition_variable::wait_until does, and its predicate form loops on it) sees the deadline
+// reached. Without this a predicate wait would spin through "early" time-outs for ever (a false livelock).
+static long long g_clockOffsetNs = 0;
+static long long realNowNs(clockid_t clk) {
+  struct timespec ts;
+  syscall(SYS_clock_gettime, clk, &ts);
+  return (long long)ts.tv_sec * 1000000000LL + ts.tv_nsec;
+}
+static void advanceClockTo(clockid_t clk, const struct timespec* deadline) {
+  if (!deadline) return;
+  long long d = (long long)deadline->tv_sec * 1000000000LL + deadline->tv_nsec;
+  long long need = d - realNowNs(clk) + 1000;
+  if (need > g_clockOffsetNs) g_clockOffsetNs = need;
+}
+
+int condWaitCommon(pthread_cond_t* c, pthread_mutex_t* m, bool timed, clockid_t clk = CLOCK_REALTIME, const struct timespec* deadline = nullptr) {
   Thr* me = t_self;
   release(m, me->id);
   me->st = COND_WAIT;
@@ -187,6 +204,7 @@ int condWaitCommon(pthread_cond_t* c, pthread_mutex_t* m, bool timed) {
     auto& w = g_waiters[c];
     for (size_t i = 0; i < w.size(); ++i) if (w[i] == me->id) { w.erase(w.begin() + i); break; }
   }
+  if (to) advanceClockTo(clk, deadline);
   acquire(m, me->id);
   me->st = RUN;
   return to ? ETIMEDOUT : 0;
@@ -283,11 +301,11 @@ int pthread_cond_wait(pthread_cond_t* c, pthread_mutex_t* m) {
 }
 int pthread_cond_timedwait(pthread_cond_t* c, pthread_mutex_t* m, const struct timespec* ts) {
   if (!g_active || !t_self) { REAL(cond_timedwait_fn, "pthread_cond_timedwait"); return r(c, m, ts); }
-  return condWaitCommon(c, m, true);
+  return condWaitCommon(c, m, true, CLOCK_REALTIME, ts);
 }
 int pthread_cond_clockwait(pthread_cond_t* c, pthread_mutex_t* m, clockid_t clk, const struct timespec* ts) {
   if (!g_active || !t_self) { REAL(cond_clockwait_fn, "pthread_cond_clockwait"); return r(c, m, clk, ts); }
-  return condWaitCommon(c, m, true);
+  return condWaitCommon(c, m, true, clk, ts);
 }
 int pthread_cond_signal(pthread_cond_t* c) {
   if (!g_active || !t_self) { REAL(cond_fn, "pthread_cond_signal"); return r(c); }
@@ -348,6 +366,15 @@ int pthread_detach(pthread_t p) {
   REAL(detach_fn, "pthread_detach");
   if (g_active) { Thr* t = findThread(p); if (t) t->detached = true; }
   return r(p);
+}
+int clock_gettime(clockid_t clk, struct timespec* ts) {
+  int r = (int)syscall(SYS_clock_gettime, clk, ts);
+  if (r == 0 && g_active && g_clockOffsetNs && (clk == CLOCK_REALTIME || clk == CLOCK_MONOTONIC)) {
+    long long v = (long long)ts->tv_sec * 1000000000LL + ts->tv_nsec + g_clockOffsetNs;
+    ts->tv_sec = (time_t)(v / 1000000000LL);
+    ts->tv_nsec = (long)(v % 1000000000LL);
+  }
+  return r;
 }
 int sched_yield(void) {
   if (g_active && t_self) { reschedule(); return 0; }
